@@ -248,3 +248,61 @@ def rule_ptr_keep_order(ctx):
         r.bad(Finding("ptr-keep-order", "_partial_trace_dense", f"`keep` is only consumed by {consumers} (order-insensitive): the reduced state always lists the kept subsystems in ascending order, "
                                                                  "so Tr[pkron(A, dims, inds) rho] != Tr[A ptr(rho, dims, inds)] for an unsorted `inds`", where=where, operand="order"))
     return r
+
+
+def rule_permute_layout(ctx):
+    r = RuleResult(
+        "permute-layout",
+        "`permute(x, dims, perm)` takes the dims of the *current* layout. Where the current layout is a permutation P of the subsystems and "
+        "the perm handed over is its inverse Q (Q = argsort(P), or Q[P] = arange(n)), the dims are dims∘P: they are assembled from P's own "
+        "pieces and may not be computed from Q (dims∘Q is the layout after permuting twice — equal only for involutions, so uniform dims and "
+        "self-inverse orders hide it)",
+    )
+    n = 0
+    for modname in (CORE, "quimb.calc"):
+        m = ctx.prog.modules.get(modname)
+        if m is None:
+            continue
+        for f in m.all_functions:
+            if f.is_alias or isinstance(f.node, ast.Lambda) or f.parent is not None:
+                continue
+            for c in ast.walk(f.node):
+                if not (isinstance(c, ast.Call) and isinstance(c.func, ast.Name) and c.func.id == "permute" and len(c.args) >= 3):
+                    continue
+                D, Q = c.args[1], c.args[2]
+                if not isinstance(Q, ast.Name):
+                    continue
+                # is Q built as the inverse of another permutation?
+                inv_of = None
+                for a in ast.walk(f.node):
+                    if isinstance(a, ast.Assign):
+                        for t in a.targets:
+                            if isinstance(t, ast.Subscript) and isinstance(t.value, ast.Name) and t.value.id == Q.id and isinstance(t.slice, ast.Name):
+                                inv_of = t.slice.id
+                            if isinstance(t, ast.Name) and t.id == Q.id and isinstance(a.value, ast.Call) and (dotted(a.value.func) or "").split(".")[-1] == "argsort" \
+                                    and a.value.args and isinstance(a.value.args[0], ast.Name):
+                                inv_of = a.value.args[0].id
+                if inv_of is None:
+                    continue
+                n += 1
+                # def-use closure of the dims argument
+                closure, frontier = set(), {y.id for y in ast.walk(D) if isinstance(y, ast.Name)}
+                dname = D.id if isinstance(D, ast.Name) else src_of(D)[:30]
+                while frontier:
+                    nm = frontier.pop()
+                    if nm in closure:
+                        continue
+                    closure.add(nm)
+                    for a in ast.walk(f.node):
+                        if isinstance(a, ast.Assign) and any(isinstance(y, ast.Name) and y.id == nm and isinstance(y.ctx, ast.Store) for t in a.targets for y in ast.walk(t)):
+                            frontier |= {y.id for y in ast.walk(a.value) if isinstance(y, ast.Name)} - closure
+                q = f"{f.qualname}:permute"
+                if Q.id in closure:
+                    r.bad(Finding("permute-layout", f.qualname,
+                                  f"`{src_of(c)[:50]}` (line {c.lineno}): the dims `{dname}` are computed from `{Q.id}`, the inverse of the current layout `{inv_of}`, which is also the perm handed "
+                                  "over: the operator is reshaped with the dims of the twice-permuted layout (wrong whenever the dims differ and the order is not self-inverse)",
+                                  where=f"{m.relpath}:{c.lineno}", operand="dims-from-inverse"))
+                else:
+                    r.ok(q, sample={"function": f.qualname, "current layout": inv_of, "perm": Q.id, "dims built from": sorted(closure - {dname})[:6]})
+    r.floor(n, 1, "permute calls that undo a known layout")
+    return r
